@@ -145,12 +145,18 @@ def closed_loop(ck, rng, n_states):
                   eccentricity=e, orbital_frequency=n, spin_frequency=spin, max_tidal_order_l=lmax,
                   eccentricity_truncation_lvl=trunc, fixed_q=50.0, fixed_k2=0.3, fixed_dt=100.0,
                   calculate_orbit_spin_derivatives=True)
+        # tidal_scale (fraction of the world that dissipates) rotates through 1 and two proper fractions (deterministic in t, the
+        # random stream is untouched): heating and all three potential derivatives scale together, so the balances must still close
+        ts = [1.0, 0.375, 1.0, 0.6][t % 4]
+        ts2 = [1.0, 0.8][(t // 2) % 2]
+        if ts != 1.0:
+            kw["tidal_scale"] = ts
         for k_ in arr_keys:
             kw[k_] = np.array(scal[k_], dtype=float)
         if obl is not None:
             kw["obliquity"] = obl
         det = {"R": Rr, "rho": rho, "M_host": M, "n": n, "spin": spin, "e": str(e), "obliquity": obl, "rheology": rheo,
-               "trunc": trunc, "lmax": lmax, "array": which or False}
+               "trunc": trunc, "lmax": lmax, "array": which or False, "tidal_scale": ts}
         ck.case(("loop", t), True)
         try:
             res = quick_tidal_dissipation(M, Rr, m, g, rho, moi, **kw)
@@ -209,7 +215,7 @@ def closed_loop(ck, rng, n_states):
                                                        rheologies=("maxwell", "andrade" if rheo in ("cpl", "ctl") else rheo),
                                                        obliquities=(obl, obl) if obl is not None else None,
                                                        spin_frequencies=(spin2, spin), eccentricity=ev, orbital_frequency=n,
-                                                       max_tidal_order_l=lmax, eccentricity_truncation_lvl=trunc)
+                                                       max_tidal_order_l=lmax, eccentricity_truncation_lvl=trunc, tidal_scales=(ts2, ts))
                 # other ways of saying the same thing: a spin given as a period, and None for a spin-locked body (spin = n)
                 from TidalPy.utilities.conversions import rads2days
                 alt_forms = [("spin_periods", dict(spin_periods=(float(rads2days(spin2)), float(rads2days(spin)))), (spin2, spin))]
@@ -219,7 +225,7 @@ def closed_loop(ck, rng, n_states):
                 nm_alt, kw_alt, explicit = alt_forms[(t // 2) % len(alt_forms)]
                 common = dict(viscosities=(1e18, kw["viscosity"] if "viscosity" not in arr_keys else visc0), shear_moduli=(5e10, kw["shear_modulus"]),
                               rheologies=("maxwell", "andrade" if rheo in ("cpl", "ctl") else rheo), obliquities=(obl, obl) if obl is not None else None,
-                              eccentricity=ev, orbital_frequency=n, max_tidal_order_l=lmax, eccentricity_truncation_lvl=trunc)
+                              eccentricity=ev, orbital_frequency=n, max_tidal_order_l=lmax, eccentricity_truncation_lvl=trunc, tidal_scales=(ts2, ts))
                 r_alt = quick_dual_body_tidal_dissipation((R2, Rr), (M2, m), (g2, g), (rho2, rho), (moi2, moi), **dict(common, **kw_alt))
                 r_exp = quick_dual_body_tidal_dissipation((R2, Rr), (M2, m), (g2, g), (rho2, rho), (moi2, moi), **dict(common, spin_frequencies=explicit))
                 ck.case(("loop-dual-forms", t, nm_alt), True)
@@ -235,12 +241,12 @@ def closed_loop(ck, rng, n_states):
                              "quick_dual_body_tidal_dissipation raised %s(%s) at %s" % (type(ex).__name__, str(ex)[:100], det), det)
                 continue
             # each body's part of a dual-body result equals the single-body calculation for that body (independent path)
-            for nm, (Mh, Rb, mb, gb, rb, ib, vb, sb, rhb, spb) in (("host", (m, R2, M2, g2, rho2, moi2, 1e18, 5e10, "maxwell", spin2)),
-                                                                  ("secondary", (M2, Rr, m, g, rho, moi, visc0, kw["shear_modulus"],
-                                                                                 "andrade" if rheo in ("cpl", "ctl") else rheo, spin))):
+            for nm, (Mh, Rb, mb, gb, rb, ib, vb, sb, rhb, spb, tsb) in (("host", (m, R2, M2, g2, rho2, moi2, 1e18, 5e10, "maxwell", spin2, ts2)),
+                                                                       ("secondary", (M2, Rr, m, g, rho, moi, visc0, kw["shear_modulus"],
+                                                                                      "andrade" if rheo in ("cpl", "ctl") else rheo, spin, ts))):
                 ref = quick_tidal_dissipation(Mh, Rb, mb, gb, rb, ib, viscosity=vb, shear_modulus=sb, rheology=rhb, eccentricity=ev,
                                               obliquity=obl, orbital_frequency=n, spin_frequency=spb, max_tidal_order_l=lmax,
-                                              eccentricity_truncation_lvl=trunc, use_obliquity=(obl is not None))
+                                              eccentricity_truncation_lvl=trunc, use_obliquity=(obl is not None), tidal_scale=tsb)
                 for key in ("tidal_heating", "dUdM", "dUdw", "dUdO"):
                     va, vs = np.asarray(rd[nm][key], dtype=float).ravel(), np.asarray(ref[key], dtype=float).ravel()
                     if va.shape != vs.shape or not np.all((va == vs) | (np.abs(va - vs) <= 1e-11 * np.maximum(np.abs(va), np.abs(vs)))):
